@@ -56,9 +56,11 @@ class AFMReader(TextToModel):
         parser.removeErrorListeners()
         parser.addErrorListener(error_listener)
         self.parse_tree = parser.feature_model()
+        # the grammar rule does not consume EOF: text it could not parse is left over (looking ahead may lex further)
+        leftover = stream.LA(1) != Token.EOF
         if error_listener.errors:
             raise FlamaException("Parsing failed due to syntax errors: " + "; ".join(error_listener.errors))
-        if stream.LA(1) != Token.EOF:  # the grammar rule does not consume EOF: text it could not parse is left over
+        if leftover:
             raise FlamaException(f"Parsing failed: unexpected text at line {stream.LT(1).line}")
 
     def transform(self) -> FeatureModel:
